@@ -43,6 +43,8 @@ class Signal(object):
         self.verbose = verbose
         self._dt = dt
         self._values = np.array(values)
+        if self._values.dtype.kind in 'iub':  # integer counts: never compute in a fixed-width integer type
+            self._values = self._values.astype(float)
         self.label = label
         if smooth_fa_freqs is not None:
             self.smooth_fa_freqs = smooth_fa_freqs
@@ -64,6 +66,8 @@ class Signal(object):
 
     def reset_values(self, new_values):
         self._values = np.array(new_values)
+        if self._values.dtype.kind in 'iub':
+            self._values = self._values.astype(float)
         self._npts = len(self._values)
         self.clear_cache()
 
